@@ -1,0 +1,24 @@
+//go:build verif
+
+package replica
+
+import (
+	"context"
+
+	"github.com/lindb/lindb/models"
+	"github.com/lindb/lindb/rpc"
+)
+
+// VerifSetCreateShardChannel replaces the factory of shard level channels ("createChannel", a package
+// variable that exists for testing) so that a verification harness can observe which rows the real
+// databaseChannel.Write routes to which (shard, family) without starting replication goroutines.
+// Passing nil restores the production factory. Only compiled with -tags verif; add-only.
+func VerifSetCreateShardChannel(
+	fn func(ctx context.Context, database string, shardID models.ShardID, fct rpc.ClientStreamFactory) ShardChannel,
+) {
+	if fn == nil {
+		createChannel = newShardChannel
+		return
+	}
+	createChannel = fn
+}
